@@ -42,6 +42,14 @@ def cases(tier, rng):
             if thorough or c == "tcp":
                 line = "c17 %s 100000 %s other-open" % (c, side)
                 cs.append({"line": line, "key": line, "model": False, "tags": {"carrier": c, "n": 100000, "side": side, "variant": "other-open"}})
+    # the DNS tunnel's two ends alone (real client connection with its poller, real listener, lossless path): the closing end writes and
+    # closes at once; the other end starts reading only after a while (what was acknowledged to the writer must still be readable, then
+    # end-of-stream; a server-side close must reach a client that is only polling)
+    for closer in ("client", "server"):
+        for n in ((0, 1, 3000, 20000) if thorough else (0, 3000)):
+            for lag in ((0, 300, 1500) if thorough else (0, 300)):
+                line = "c17d %d %s %d" % (n, closer, lag)
+                cs.append({"line": line, "key": line, "model": False, "tags": {"carrier": "dns-ends", "n": n, "side": closer, "variant": "lag%d" % lag}})
     return cs
 
 
